@@ -36,6 +36,12 @@ func encodeTLS(v *wireVec) (*wireCase, error) {
 		c.first = append([]byte{0x80, 0x2e, 0x01, 0x03, 0x01}, filler(43, 9)...)
 	case "http":
 		c.first = []byte("GET / HTTP/1.1\r\nHost: a.example.com\r\n\r\n")
+	case "emptyrec":
+		c.first = []byte{0x16, 3, 1, 0, 0}
+	case "shortrec":
+		c.first = []byte{0x16, 3, 1, 0, 3, 1, 0, 0}
+	case "notch":
+		c.first = append([]byte{0x16, 3, 3, 0, 44, 2, 0, 0, 40}, filler(40, 3)...)
 	}
 	mc := map[string]any{}
 	if l := mlist(cfg, "sni"); len(l) > 0 {
